@@ -14,7 +14,9 @@ for d in sorted(glob.glob("/verif/seeded/*/")):
     meta = json.load(open(m))
     name = os.path.basename(d.rstrip("/"))
     det = sorted(c for c, r in meta.get("checks", {}).items() if r.get("detected"))
-    hist = [h for h in meta.get("history", []) if not (h.get("earlier_result") or {}).get("detected")]
+    # (a run that ended in a harness error is a broken run, not a miss)
+    hist = [h for h in meta.get("history", []) if not (h.get("earlier_result") or {}).get("detected")
+            and not (h.get("earlier_result") or {}).get("harness_error")]
     when = "after strengthening" if hist else "as built"
     title = ""
     p = os.path.join(d, "notes.md")
